@@ -301,6 +301,11 @@ func (h *Handler) handleUDPAssociate(conn net.Conn, req *Request) error {
 	// Set expected client address
 	if expectedClient != nil {
 		assoc.SetExpectedClientAddr(expectedClient)
+	} else if tcpRemote, ok := conn.RemoteAddr().(*net.TCPAddr); ok && tcpRemote != nil {
+		// The client did not say where it will send from (0.0.0.0:0, the common
+		// case): the association still belongs to the host that owns the control
+		// connection, so only accept datagrams from that host.
+		assoc.SetExpectedClientAddr(&net.UDPAddr{IP: tcpRemote.IP})
 	}
 
 	// Create association in mesh (get stream ID)
